@@ -74,8 +74,8 @@ def unixOf (y m d hh mi ss : Nat) (off : Int) : Int :=
   ((daysFromCivil y m d : Int) - epochDays) * 86400 + hh * 3600 + mi * 60 + ss - off
 
 /-- day number (from 0000-01-01, may be negative) and second of day of a unix instant -/
-def dayOfUnix (u : Int) : Int := u.fdiv 86400 + epochDays
-def todOfUnix (u : Int) : Nat := (u.fmod 86400).toNat
+def dayOfUnix (u : Int) : Int := u / 86400 + epochDays
+def todOfUnix (u : Int) : Nat := (u % 86400).toNat
 
 /-- the UTC year of an instant; every instant before 0000-01-01 is reported as year −1 -/
 def yearOfUnix (u : Int) : Int := if dayOfUnix u < 0 then -1 else (yearOf (dayOfUnix u).toNat : Int)
@@ -150,16 +150,20 @@ def leapStandInOk (u : Int) : Bool :=
   let c := civilFromDays (dayOfUnix u).toNat
   todOfUnix u == 86399 && c.2.2 == daysInMonth (isLeap c.1) c.2.1
 
-/-- `OffsetDateTime::parse(_, &Rfc3339)`: the instant, truncated to the second -/
+/-- `OffsetDateTime::parse(_, &Rfc3339)`: the instant, truncated to the second.  A `:60` second
+is replaced by `:59` and must pass the leap-second stand-in rule. -/
 def parse3339 (s : List Nat) : Option Int :=
   match parseFields s with
   | none => none
   | some f =>
-    let leap := f.ss == 60
-    let ss := if leap then 59 else f.ss
-    if validDate f.y f.m f.d && f.hh ≤ 23 && f.mi ≤ 59 && ss ≤ 59 then
-      let u := unixOf f.y f.m f.d f.hh f.mi ss f.off
-      if leap && !leapStandInOk u then none else some u
+    if f.ss == 60 then
+      if validDate f.y f.m f.d && f.hh ≤ 23 && f.mi ≤ 59 then
+        if leapStandInOk (unixOf f.y f.m f.d f.hh f.mi 59 f.off) then
+          some (unixOf f.y f.m f.d f.hh f.mi 59 f.off)
+        else none
+      else none
+    else if validDate f.y f.m f.d && f.hh ≤ 23 && f.mi ≤ 59 && f.ss ≤ 59 then
+      some (unixOf f.y f.m f.d f.hh f.mi f.ss f.off)
     else none
 
 inductive TErr | invalid
